@@ -95,7 +95,7 @@ def gen_cases(tier, rng):
             ('-n x\n', ['--arg-file', 'f1.pa', '-n', 'y', '-n', 'z'], 'reject')):
         cases.append('%s%s %s exp:%s mut:%s' % (afx, A.hx(content), A.argv_tok(words), exp,
                                                  'duplicate' if exp == 'reject' else 'none'))
-    # a sub-group argument (outside the model: judged by the expected outcome): what the sub-group handler does not
+    # a sub-group argument (ArgH/SubGroup.v): what the sub-group handler does not
     # know is evaluated by the main handler - unknown keys and stray values behind the sub-group key are refused
     sgb = 'H:f=0 arg:v:b0:init=0 arg:n:i0: S:o,output:f=0 arg:f,file:s0: arg:q:b1:init=0 '
     for w, exp in ((['-o', '-x'], 'reject'), (['-o', '-x', '-v'], 'reject'), (['-o', 'stray'], 'reject'),
@@ -103,6 +103,9 @@ def gen_cases(tier, rng):
                    (['-o', '-v'], 'b0=1;b1=0;i0=0;s0=s-'), (['-o', '-q', '-n', '3'], 'b0=0;b1=1;i0=3;s0=s-'),
                    (['-v', '-o'], 'b0=1;b1=0;i0=0;s0=s-'), (['-o', '-f', 'a', '-v'], 'b0=1;b1=0;i0=0;s0=s61')):
         cases.append(sgb + A.argv_tok(w) + ' exp:%s mut:%s' % (exp, 'unknown-short' if exp == 'reject' else 'none'))
+    # the key of a sub-group argument is taken by a plain argument of the same handler: the definition is refused
+    for plain, sub in (('o,output', 'o'), ('output', 'output'), ('o', 'o,output'), ('o,output', 'x,output')):
+        cases.append('H:f=0 arg:%s:b0:init=0 S:%s:f=0 arg:q:b1:init=0 %s exp:reject mut:duplicate' % (plain, sub, A.argv_tok(['-o'])))
     # nothing on the command line: the end-of-line checks still run
     cases.append('H:f=0 arg:m:i0:man arg:x:b0:init=0 argv:- exp:reject mut:drop-mandatory')
     cases.append('H:f=0 arg:l:b0:init=0 arg:m:b1:init=0 con:one_of:l;m argv:- exp:reject mut:break-handler-constraint')
